@@ -4,18 +4,27 @@ package farm
 
 import (
 	"fmt"
+	"os"
 	"sort"
 	"strconv"
 	"strings"
 	"time"
 
+	"cosmossdk.io/collections"
 	sdkmath "cosmossdk.io/math"
 	storetypes "cosmossdk.io/store/types"
 	sdk "github.com/cosmos/cosmos-sdk/types"
 	authtypes "github.com/cosmos/cosmos-sdk/x/auth/types"
+	distrtypes "github.com/cosmos/cosmos-sdk/x/distribution/types"
+	govtypes "github.com/cosmos/cosmos-sdk/x/gov/types"
+	govv1 "github.com/cosmos/cosmos-sdk/x/gov/types/v1"
+	govv1beta1 "github.com/cosmos/cosmos-sdk/x/gov/types/v1beta1"
+	"github.com/cosmos/cosmos-sdk/x/params"
+	paramproposal "github.com/cosmos/cosmos-sdk/x/params/types/proposal"
 
 	coinswaptypes "mods.irisnet.org/modules/coinswap/types"
 	farmmod "mods.irisnet.org/modules/farm"
+	farmkeeper "mods.irisnet.org/modules/farm/keeper"
 	farmtypes "mods.irisnet.org/modules/farm/types"
 
 	"verifharness/hx"
@@ -27,7 +36,8 @@ const nAcc = 5
 var Denoms = []string{"btc", "eth", "lpt-1", "lpt-2", "stake"}
 
 // module accounts printed in observations (symbolic name -> module name)
-var modAccs = [][2]string{{"farm", farmtypes.ModuleName}, {"collector", farmtypes.RewardCollector}, {"fees", authtypes.FeeCollectorName}}
+var modAccs = [][2]string{{"farm", farmtypes.ModuleName}, {"collector", farmtypes.RewardCollector}, {"fees", authtypes.FeeCollectorName},
+	{"escrow", farmtypes.EscrowCollector}, {"distr", distrtypes.ModuleName}, {"gov", govtypes.ModuleName}}
 
 type R struct {
 	env   *hx.Env
@@ -45,6 +55,16 @@ func New(env *hx.Env) *R {
 	for _, m := range modAccs {
 		r.names[hx.Mod(m[1]).String()] = m[0]
 	}
+	// /repo's SimApp wires neither the farm proposal handler into gov's legacy router nor the
+	// farm GovHook into gov (MsgCreatePoolWithCommunityPool is rejected with "no handler exists
+	// for proposal type" there).  Production applications register the route; the harness does the
+	// same on the application's own gov keeper (keeping the routes the SimApp has) and calls the
+	// hooks itself, in the order and context caching of gov's EndBlocker (govEnd below).
+	rt := govv1beta1.NewRouter()
+	rt.AddRoute(govtypes.RouterKey, govv1beta1.ProposalHandler)
+	rt.AddRoute(paramproposal.RouterKey, params.NewParamChangeProposalHandler(env.App.ParamsKeeper))
+	rt.AddRoute(farmtypes.RouterKey, farmmod.NewProposalHandler(env.Farm))
+	env.App.GovKeeper.SetLegacyRouter(rt)
 	return r
 }
 
@@ -83,7 +103,9 @@ func (r *R) ResetLine(g *hx.Rng) string {
 	fee := []int64{5000, 5000, 1, 0, 7, 1000003}[g.Intn(6)]
 	tax := []string{"400000000000000000", "400000000000000000", "1", "999999999999999999", "333333333333333333", "500000000000000000"}[g.Intn(6)]
 	maxcat := []int{2, 2, 2, 1, 3}[g.Intn(5)]
-	return "farm reset " + hx.KV("h", h, "rich", rich, "poor", poor, "fee", fee, "tax", tax, "maxcat", maxcat)
+	// gov: MinDeposit (bond denom) and the smallest accepted single deposit, MinDeposit × MinDepositRatio (0.01)
+	govmin := []int64{10000000, 1000, 100, 250}[g.Intn(4)]
+	return "farm reset " + hx.KV("h", h, "rich", rich, "poor", poor, "fee", fee, "tax", tax, "maxcat", maxcat, "govmin", govmin, "govthr", govmin/100)
 }
 
 func (r *R) Reset(ctx sdk.Context, line string) (sdk.Context, string) {
@@ -110,6 +132,27 @@ func (r *R) Reset(ctx sdk.Context, line string) (sdk.Context, string) {
 		PoolCreationFee: sdk.NewCoin("stake", hx.MustInt(a["fee"])), TaxRate: tax, MaxRewardCategories: uint32(maxcat),
 	}); err != nil {
 		hx.Fail("set params: %v", err)
+	}
+	// gov parameters of the history; the proposal id sequence must start at 1 (fresh fork)
+	govmin := int64(10000000)
+	if v, ok := a["govmin"]; ok {
+		govmin, _ = strconv.ParseInt(v, 10, 64)
+	}
+	gp, err := r.env.App.GovKeeper.Params.Get(ctx)
+	if err != nil {
+		hx.Fail("gov params: %v", err)
+	}
+	gp.MinDeposit = sdk.NewCoins(sdk.NewInt64Coin("stake", govmin))
+	gp.MinDepositRatio = "0.010000000000000000"
+	gp.BurnProposalDepositPrevote = false
+	if err := r.env.App.GovKeeper.Params.Set(ctx, gp); err != nil {
+		hx.Fail("set gov params: %v", err)
+	}
+	if pid, err := r.env.App.GovKeeper.ProposalID.Peek(ctx); err != nil || pid != 1 {
+		hx.Fail("gov proposal id sequence does not start at 1: %d %v", pid, err)
+	}
+	if fp, err := r.env.App.DistrKeeper.FeePool.Get(ctx); err != nil || !fp.CommunityPool.IsZero() {
+		hx.Fail("community pool not empty at reset: %v %v", fp.CommunityPool, err)
 	}
 	// the fee collector may hold the coinswap pool creation tax: sweep it so that the universe starts clean
 	for _, m := range modAccs {
@@ -230,22 +273,186 @@ func (r *R) state(ctx sdk.Context) string {
 			}
 		}
 	}
+	// the community-pool path: escrow infos, gov proposals (status, deposits held), the community pool
+	var es, prs, cps []string
+	for _, e := range k.GetAllEscrowInfo(ctx) {
+		es = append(es, escrowStr(r, e))
+	}
+	for _, p := range r.proposals(ctx) {
+		prs = append(prs, fmt.Sprintf("%d|%s|%s", p.Id, statusLetter(p.Status), r.depositOf(ctx, p.Id)))
+	}
+	if fp, err := r.env.App.DistrKeeper.FeePool.Get(ctx); err == nil {
+		for _, c := range fp.CommunityPool {
+			if !c.Amount.IsZero() {
+				cps = append(cps, fmt.Sprintf("%s|%s", c.Denom, c.Amount.BigInt().String()))
+			}
+		}
+	} else {
+		hx.Fail("fee pool: %v", err)
+	}
 	sort.Strings(ps)
 	sort.Strings(fs)
 	sort.Strings(qs)
 	sort.Strings(bs)
+	sort.Strings(es)
+	sort.Strings(prs)
+	sort.Strings(cps)
 	j := func(x []string) string {
 		if len(x) == 0 {
 			return "-"
 		}
 		return strings.Join(x, ",")
 	}
-	return fmt.Sprintf("h=%d seq=%d pools=%s farmers=%s queue=%s bals=%s", ctx.BlockHeight(), k.GetSequence(ctx), j(ps), j(fs), j(qs), j(bs))
+	return fmt.Sprintf("h=%d seq=%d pools=%s farmers=%s queue=%s bals=%s esc=%s props=%s cp=%s", ctx.BlockHeight(), k.GetSequence(ctx), j(ps), j(fs), j(qs), j(bs), j(es), j(prs), j(cps))
+}
+
+func escrowStr(r *R, e farmtypes.EscrowInfo) string {
+	return fmt.Sprintf("%d|%s|%s|%s", e.ProposalId, r.sym(e.Proposer), coinsStr(e.FundApplied, ";"), coinsStr(e.FundSelfBond, ";"))
+}
+
+func statusLetter(st govv1.ProposalStatus) string {
+	switch st {
+	case govv1.StatusDepositPeriod:
+		return "D"
+	case govv1.StatusVotingPeriod:
+		return "V"
+	case govv1.StatusPassed:
+		return "P"
+	case govv1.StatusRejected:
+		return "R"
+	case govv1.StatusFailed:
+		return "F"
+	}
+	return "?"
+}
+
+// proposals lists the gov proposals of the history (all of them are farm proposals).
+func (r *R) proposals(ctx sdk.Context) []govv1.Proposal {
+	var out []govv1.Proposal
+	err := r.env.App.GovKeeper.Proposals.Walk(ctx, nil, func(_ uint64, p govv1.Proposal) (bool, error) {
+		out = append(out, p)
+		return false, nil
+	})
+	if err != nil {
+		hx.Fail("walk proposals: %v", err)
+	}
+	return out
+}
+
+// depositOf is the bond-denom total of the deposit records gov still holds for a proposal.
+func (r *R) depositOf(ctx sdk.Context, pid uint64) sdkmath.Int {
+	ds, err := r.env.App.GovKeeper.GetDeposits(ctx, pid)
+	if err != nil {
+		hx.Fail("deposits: %v", err)
+	}
+	t := sdkmath.ZeroInt()
+	for _, d := range ds {
+		t = t.Add(sdk.NewCoins(d.Amount...).AmountOf("stake"))
+	}
+	return t
+}
+
+// govEnd does to proposal pid what gov's EndBlocker (x/gov/abci.go, SDK v0.50) does to a proposal
+// whose deposit period (kind "faildeposit") or voting period (kind "pass" / "reject": the tally
+// result) has ended, in the same order and with the same context caching; the farm hooks, which
+// the SimApp does not register with gov, are called where gov calls its hooks.  A proposal that is
+// not in that period is not due: if gov still has it in the other period nothing happens; if gov
+// has finished with it (or never had it) only the hook is called again.  Returns due / panicked.
+func (r *R) govEnd(ctx sdk.Context, pid uint64, kind string) (due bool, panicked bool) {
+	gk := r.env.App.GovKeeper
+	hook := farmkeeper.NewGovHook(r.env.Farm)
+	bctx, writeBlock := ctx.CacheContext() // discarded when the block processing panics or errors
+	callHook := func() {
+		cacheCtx, writeCache := bctx.CacheContext()
+		if kind == "faildeposit" {
+			hook.AfterProposalFailedMinDeposit(cacheCtx, pid)
+		} else {
+			hook.AfterProposalVotingPeriodEnded(cacheCtx, pid)
+		}
+		writeCache() // the farm hooks return no error
+	}
+	abort := false
+	p, _ := hx.NoPanic(func() {
+		proposal, err := gk.Proposals.Get(bctx, pid)
+		if err != nil {
+			callHook()
+			return
+		}
+		alive := proposal.Status == govv1.StatusDepositPeriod || proposal.Status == govv1.StatusVotingPeriod
+		want := govv1.StatusVotingPeriod
+		if kind == "faildeposit" {
+			want = govv1.StatusDepositPeriod
+		}
+		if proposal.Status != want {
+			if !alive {
+				callHook()
+			}
+			return
+		}
+		due = true
+		if kind == "faildeposit" {
+			if err := gk.DeleteProposal(bctx, pid); err != nil {
+				abort = true
+				return
+			}
+			if err := gk.RefundAndDeleteDeposits(bctx, pid); err != nil {
+				abort = true
+				return
+			}
+			callHook()
+			return
+		}
+		passes := kind == "pass"
+		if err := gk.RefundAndDeleteDeposits(bctx, pid); err != nil {
+			abort = true
+			return
+		}
+		if err := gk.ActiveProposalsQueue.Remove(bctx, collections.Join(*proposal.VotingEndTime, proposal.Id)); err != nil {
+			abort = true
+			return
+		}
+		if passes {
+			cacheCtx, writeCache := bctx.CacheContext()
+			msgs, err := proposal.GetMsgs()
+			if err == nil {
+				for _, msg := range msgs {
+					handler := gk.Router().Handler(msg)
+					if pm, info := hx.NoPanic(func() { _, err = handler(cacheCtx, msg) }); pm {
+						err = fmt.Errorf("panicked: %s", info)
+					}
+					if err != nil {
+						break
+					}
+				}
+			}
+			if err == nil {
+				proposal.Status = govv1.StatusPassed
+				writeCache()
+			} else {
+				proposal.Status = govv1.StatusFailed
+				proposal.FailedReason = err.Error()
+			}
+		} else {
+			proposal.Status = govv1.StatusRejected
+			proposal.FailedReason = "proposal did not get enough votes to pass"
+		}
+		if err := gk.SetProposal(bctx, proposal); err != nil {
+			abort = true
+			return
+		}
+		callHook()
+	})
+	if p || abort {
+		return due, true
+	}
+	writeBlock()
+	return due, false
 }
 
 // genesisLine renders the real exported genesis: pools in the document's own order, farmer
 // records as a sorted set (their real order is that of the bech32 address bytes; `fiorder`
-// reports whether the real list is in strictly ascending store-key order), escrow count.
+// reports whether the real list is in strictly ascending store-key order), escrow infos in the
+// document's own order.
 func (r *R) genesisLine(gs *farmtypes.GenesisState) string {
 	var ps, fs []string
 	for _, p := range gs.Pools {
@@ -281,8 +488,12 @@ func (r *R) genesisLine(gs *farmtypes.GenesisState) string {
 		}
 		return strings.Join(x, ",")
 	}
-	return fmt.Sprintf("gseq=%d gfee=%s gtax=%s gmaxcat=%d escrow=%d fiorder=%s gpools=%s gfarmers=%s", gs.Sequence, gs.Params.PoolCreationFee.Amount,
-		gs.Params.TaxRate.BigInt().String(), gs.Params.MaxRewardCategories, len(gs.Escrow), order, j(ps), j(fs))
+	var es []string
+	for _, e := range gs.Escrow {
+		es = append(es, escrowStr(r, e))
+	}
+	return fmt.Sprintf("gseq=%d gfee=%s gtax=%s gmaxcat=%d gescrow=%s fiorder=%s gpools=%s gfarmers=%s", gs.Sequence, gs.Params.PoolCreationFee.Amount,
+		gs.Params.TaxRate.BigInt().String(), gs.Params.MaxRewardCategories, j(es), order, j(ps), j(fs))
 }
 
 // parseCoins: "-" = nil (field absent); otherwise "d:n,d:n" kept in the given order.
@@ -319,7 +530,7 @@ func (r *R) Exec(ctx sdk.Context, line string) (sdk.Context, string) {
 		var ended bool
 		ctx, ended = r.closeBlock(ctx)
 		if !ended {
-			return ctx, "panic validate=- gseq=- gfee=- gtax=- gmaxcat=- escrow=- fiorder=- gpools=- gfarmers=- reward=- " + r.state(ctx)
+			return ctx, "panic validate=- gseq=- gfee=- gtax=- gmaxcat=- gescrow=- fiorder=- gpools=- gfarmers=- reward=- " + r.state(ctx)
 		}
 		gs := farmmod.ExportGenesis(ctx, r.env.Farm)
 		v := "ok"
@@ -379,6 +590,26 @@ func (r *R) Exec(ctx sdk.Context, line string) (sdk.Context, string) {
 			ctx = hx.WithBlock(ctx, h, blockTime(h))
 		}
 		return ctx, res + " reward=- " + r.state(ctx)
+	case "cp_pass", "cp_reject", "cp_faildeposit":
+		pid, err := strconv.ParseUint(a["id"], 10, 64)
+		if err != nil {
+			hx.Fail("bad proposal id %q", line)
+		}
+		due, panicked := r.govEnd(ctx, pid, strings.TrimPrefix(f[1], "cp_"))
+		res := hx.Rej
+		if panicked {
+			res = hx.Panic
+		} else if due {
+			res = hx.OK
+		}
+		return ctx, res + " reward=- " + r.state(ctx)
+	case "cp_submit":
+		msg = &farmtypes.MsgCreatePoolWithCommunityPool{
+			Content: farmtypes.CommunityPoolCreateFarmProposal{Title: hx.Undash(a["title"]), Description: "d", PoolDescription: hx.Undash(a["desc"]), LptDenom: a["lpt"],
+				RewardPerBlock: parseCoins(a["rpb"]), FundApplied: parseCoins(a["applied"]), FundSelfBond: parseCoins(a["self"])},
+			InitialDeposit: parseCoins(a["deposit"]), Proposer: r.addr(a["proposer"]).String()}
+	case "fund_cp":
+		msg = &distrtypes.MsgFundCommunityPool{Amount: parseCoins(a["amt"]), Depositor: r.addr(a["sender"]).String()}
 	case "create_pool":
 		start, err := strconv.ParseInt(a["start"], 10, 64)
 		if err != nil {
@@ -400,6 +631,9 @@ func (r *R) Exec(ctx sdk.Context, line string) (sdk.Context, string) {
 		hx.Fail("unknown op %q", line)
 	}
 	out := r.env.Deliver(ctx, msg)
+	if os.Getenv("FARM_DEBUG") != "" {
+		fmt.Fprintf(os.Stderr, "debug %s %s %s\n", f[1], out.Class, out.Err)
+	}
 	reward := "-"
 	if out.Class == hx.OK && out.Raw != nil && len(out.Raw.MsgResponses) > 0 {
 		switch f[1] {
